@@ -194,10 +194,20 @@ def etag_sensitivity(ctx):
         srv.mkcol("/u/")
         srv.mkcalendar("/u/c/")
         st = srv.application._storage
-        for i in range(ctx.n(120, 1500)):
+        nsteps = ctx.n(120, 1500)
+        for i in range(nsteps):
             k = rng.random()
             name = "n%d.ics" % rng.randrange(4)
-            if k < 0.6:
+            if i < 3 or i >= nsteps - 3:
+                # the EMPTY collection with different properties (at the start, and again after everything was deleted)
+                if i == nsteps - 3:
+                    for nm in ("n0", "n1", "n2", "n3", "m0", "m1", "m2", "m3"):
+                        srv.request("DELETE", "/u/c/%s.ics" % nm, login="u:")
+                k = 0.99
+                body = ('<?xml version="1.0"?><D:propertyupdate xmlns:D="DAV:"><D:set><D:prop><D:displayname>e%d</D:displayname>'
+                        '</D:prop></D:set></D:propertyupdate>' % (i % 3))
+                srv.request("PROPPATCH", "/u/c/", data=body, login="u:")
+            elif k < 0.6:
                 uid = name[:2]
                 srv.put("/u/c/" + name, impl.event(uid, summary="s%d" % rng.randrange(4), extra="DTSTAMP:20130101T000000Z\r\n"), login="u:")
             elif k < 0.7:
@@ -208,7 +218,7 @@ def etag_sensitivity(ctx):
                 dst = ("m" if src[0] == "n" else "n") + src[1:]
                 srv.request("MOVE", "/u/c/" + src, login="u:", HTTP_HOST="127.0.0.1", HTTP_DESTINATION="http://127.0.0.1/u/c/" + dst,
                             HTTP_OVERWRITE="F")
-            else:
+            elif k < 0.98:
                 body = ('<?xml version="1.0"?><D:propertyupdate xmlns:D="DAV:"><D:set><D:prop><D:displayname>d%d</D:displayname>'
                         '</D:prop></D:set></D:propertyupdate>' % rng.randrange(3))
                 srv.request("PROPPATCH", "/u/c/", data=body, login="u:")
